@@ -273,6 +273,8 @@ type sfwWorld struct {
 	// fullRange: this run's rule sets may hold "every port by range" rules (65535 table entries each: kept to a
 	// minority of runs so that the others stay fast)
 	fullRange bool
+	// forgotten: flows the model dropped because a reload made their original direction disallowed and a packet met them
+	forgotten map[firewall.Packet]bool
 	// versionOnly: the next reload installs a new firewall object although nothing that decides a packet changed
 	versionOnly bool
 	V       *simNode
@@ -508,7 +510,7 @@ func (w *sfwWorld) applyRules(in, out []fwRule, initial bool) {
 func runSFW(rc *sk.RunCtx, focus string) {
 	tp := rc.Tape
 	sw := newSimWorld(rc)
-	w := &sfwWorld{simWorld: sw, focus: focus, stats: map[string]int{}, lastPass: map[firewall.Packet]time.Time{}, seenIn: map[uint64]bool{}, seenOut: map[uint64]bool{}}
+	w := &sfwWorld{simWorld: sw, focus: focus, stats: map[string]int{}, lastPass: map[firewall.Packet]time.Time{}, seenIn: map[uint64]bool{}, seenOut: map[uint64]bool{}, forgotten: map[firewall.Packet]bool{}}
 	w.fullRange = tp.Chance(1, 16)
 	defer sw.stopAll()
 	sw.faults.baseLatency = time.Millisecond
@@ -775,14 +777,25 @@ func runSFW(rc *sk.RunCtx, focus string) {
 			}
 			// right after the reload: packets of flows seen recently, mostly in the direction opposite to the one last
 			// seen (the reply is the packet that needs the tracked flow and meets it first under the new version)
-			for k, nk := 0, tp.Choose(4); k < nk && len(recent) > 0 && !rc.Failed(); k++ {
-				i := len(recent) - 1 - tp.Choose(minInt(len(recent), 8))
-				inc := recentDir[i]
-				if tp.Chance(2, 3) {
-					inc = !inc
+			probe := func() {
+				for k, nk := 0, tp.Choose(4); k < nk && len(recent) > 0 && !rc.Failed(); k++ {
+					i := len(recent) - 1 - tp.Choose(minInt(len(recent), 8))
+					inc := recentDir[i]
+					if tp.Chance(2, 3) {
+						inc = !inc
+					}
+					w.dropAndCheck(recent[i], inc, recentPeer[i])
+					rc.Count("probe.post_reload_packets", 1)
 				}
-				w.dropAndCheck(recent[i], inc, recentPeer[i])
-				rc.Count("probe.post_reload_packets", 1)
+			}
+			probe()
+			if tp.Chance(1, 4) && fmt.Sprint(prevIn, prevOut) != fmt.Sprint(ref.in, ref.out) && !rc.Failed() {
+				// A -> B -> A in quick succession: what the node was made to forget under B stays forgotten under A
+				nin, nout := prevIn, prevOut
+				prevIn, prevOut = slices.Clone(ref.in), slices.Clone(ref.out)
+				w.applyRules(nin, nout, false)
+				rc.Count("op.reload_revert", 1)
+				probe()
 			}
 		case 3: // real path: a (byzantine) peer sends a crafted inner packet through its tunnel; V sends one out
 			p := w.peers[tp.Choose(len(w.peers))]
@@ -933,6 +946,7 @@ func (w *sfwWorld) judge(fp firewall.Packet, incoming bool, p *fwPeer, act func(
 			fl.rulesChanged = false
 			w.stats["probe.passed_by_rule_with_flow"]++
 		} else {
+			delete(w.forgotten, fp)
 			nf := &refFlow{incoming: incoming, lastPass: now, to: ref.timeout(fp.Protocol)}
 			if fl != nil && cacheMay {
 				// (answered by the cache, the older tracked entry and its deadline may still be there)
@@ -970,6 +984,8 @@ func (w *sfwWorld) judge(fp firewall.Packet, incoming bool, p *fwPeer, act func(
 	}
 	if passed {
 		switch {
+		case fl == nil && w.forgotten[fp]:
+			w.fail("C19", "forgotten-flow-honoured", "%s: no rule allows it; its flow was refused after a reload because its original direction was no longer allowed, which forgets the flow — yet after a further reload it passes again without any packet a rule allows\nin rules:  %v\nout rules: %v", desc, ref.in, ref.out)
 		case fl == nil:
 			w.fail("C16", "no-rule-no-flow-passed", "%s: no rule allows it and no earlier allowed packet of this flow exists, yet it passed\nin rules:  %v\nout rules: %v", desc, ref.in, ref.out)
 		case !flowLive:
@@ -1006,6 +1022,7 @@ func (w *sfwWorld) judge(fp firewall.Packet, incoming bool, p *fwPeer, act func(
 	case !origStillAllowed:
 		w.stats["probe.stale_flow_refused"]++
 		delete(ref.flows, fp)
+		w.forgotten[fp] = true
 	case !fl.rulesChanged && w.cache == nil:
 		// (with the routine-local cache on, cache hits do not refresh the tracked flow's expiry, so
 		// the model's idle time is only an upper bound and nothing is demanded)
